@@ -46,6 +46,8 @@ def floors(ctx):
 
 QUERY_KEYS = [("FORWARD", "NEIGHBOR", "none"), ("FORWARD", "NEIGHBOR", "even_vertex"), ("FORWARD", "NEIGHBOR", "tagged_edge"),
               ("ANY", "NEIGHBOR", "accept"), ("ANY", "NEIGHBOR", "not_directed"), ("BACKWARD", "NONNEIGHBOR", "tagged_edge"),
+              ("FORWARD", "NEIGHBOR", "min1"), ("FORWARD", "NEIGHBOR", "min3"),
+              ("ANY", "NEIGHBOR", "tagmod2"), ("ANY", "NEIGHBOR", "tagmod3"),
               ("BACKWARD", "NEIGHBOR", "tagged_edge"), ("FORWARD", "NONNEIGHBOR", "none"),
               ("ANY", "NEIGHBOR", "none"), ("ANY", "ERROR", "not_directed"), ("FORWARD", "ERROR", "none"),
               ("BACKWARD", "NEIGHBOR", "accept"), ("FORWARD", "NONNEIGHBOR", "low_vertex"), ("BACKWARD", "NONNEIGHBOR", "reject")]
@@ -85,7 +87,7 @@ class Gen5(gen.Gen):
         v = self._pick(self.vertices(pool))
         if v is None:
             return None
-        d, u, f = self.rng.choice(QUERY_KEYS[:8]) if self.rng.random() < 0.8 else self.rng.choice(QUERY_KEYS)
+        d, u, f = self.rng.choice(QUERY_KEYS[:10]) if self.rng.random() < 0.8 else self.rng.choice(QUERY_KEYS)
         op = ["nb", v, d, u, f]
         if op not in self.queried:
             self.queried.append(op)
@@ -105,7 +107,7 @@ class Gen5(gen.Gen):
         us = [n for n in self.universes(pool) if any(x is pool.get(s) for x in pool.get(n).vertices)]
         if us and self.rng.random() < 0.4:
             u = self.rng.choice(us)
-        d, unk, f = self.rng.choice(QUERY_KEYS[:8])
+        d, unk, f = self.rng.choice(QUERY_KEYS[:10])
         fn = self.rng.choice(list(driver.TRAVERSALS))
         return ["trav", fn, u, s, d, unk, f, self.rng.choice(["none", "even"])]
 
@@ -358,7 +360,7 @@ def prelude():
     base = [["cache", True], ["mkv", "V0", "Vertex", [], []], ["mkv", "V1", "VSub", [], []], ["mkv", "V2", "Vertex", [], []],
             ["mkv", "V3", "Vertex", [], []], ["mke", "E0", "DirectedEdge", "V0", "V1"], ["mke", "E1", "UnDirectedEdge", "V1", "V2"],
             ["mke", "E2", "OtherLink", "V2", "V0"]]
-    qs = [["nb", v, d, u, f] for v in ("V0", "V1", "V2", "V3") for (d, u, f) in QUERY_KEYS[:8]]
+    qs = [["nb", v, d, u, f] for v in ("V0", "V1", "V2", "V3") for (d, u, f) in QUERY_KEYS[:10]]
     qs += [["trav", "bft", None, "V0", "ANY", "NEIGHBOR", "none", "none"], ["fl", "V0", "V1", False, "NEIGHBOR", "none"],
            ["search", "dfs_recursive", None, "V0", "idx", 3]]
     muts = []
@@ -396,7 +398,7 @@ def run(ctx):
             ctx.nontrivial(ops)
     # one scripted fresh-interpreter continuation per shard, so the floor never depends on the seed
     hop_script = next(iter(prelude()))
-    nq = 4 * 8 + 3
+    nq = 4 * 10 + 3
     hop_ops = hop_script[:-nq] + [["hop"]] + hop_script[-nq:]
     judge(ctx, hop_ops, stats)
     nhist = 260 if quick else 900
